@@ -239,7 +239,7 @@ class scrypt(  # type: ignore[misc]
             (params,) = parts
             digest = None
         else:
-            raise uh.exc.MalformedHashError
+            raise uh.exc.MalformedHashError(cls, "malformed hash")
 
         # parse params & return
         if len(params) < 11:
